@@ -544,12 +544,26 @@ func TestC12_StrangeName(t *testing.T) {
 		os.Exit(0)
 	}
 	vk.Rule(rule)
+	// names every run tries, in this order (the generated ones come on top)
+	must := []string{"_c12_h1", "h1.type", "h1.appenderRef.ref", "H1", "sink", "h1.", "_c12_*", "h1.tags", "appender.sink", "logger.h1", "h1 ", "h_1", "h1.appenderRef[0]", "Rec", "h5"}
+	round := 0
 	rapid.Check(t, func(t *rapid.T) {
-		name := rapid.OneOf(
-			rapid.SampledFrom([]string{"h1.type", "h1.tags", "h1.level", "h1.appenderRef", "h1.appenderRef.ref", "h2.appender-ref", "H1", "h1 ", " h1", "h_1", "sink", "appender.sink", "logger.h1", "logger", "h1.", ".h1", "h1.appenderRef[0]", "h5", "root", "", "_c12_h1", "_c12_h2", "_c12_h3", "_c12_*", "Rec", "Logger"}),
+		for _, name := range []string{must[round%len(must)], ""} {
+			round++
+			strangeName(t, name)
+		}
+	})
+}
+
+func strangeName(t *rapid.T, name string) {
+	{
+		if name == "" {
+			name = rapid.OneOf(
+			rapid.SampledFrom([]string{"_c12_h1", "h1.type", "_c12_h2", "h1.tags", "h1.level", "h1.appenderRef", "h1.appenderRef.ref", "h2.appender-ref", "H1", "h1 ", " h1", "h_1", "sink", "appender.sink", "logger.h1", "logger", "h1.", ".h1", "h1.appenderRef[0]", "h5", "root", "", "_c12_h1", "_c12_h2", "_c12_h3", "_c12_*", "Rec", "Logger"}),
 			rapid.StringMatching(`h[1-4]\.[a-zA-Z]{1,12}`),
 			rapid.StringMatching(`[a-z]{1,6}`),
 		).Draw(t, "name")
+		}
 		if name == "root" || name == "" {
 			name = "rootx"
 		}
@@ -573,7 +587,7 @@ func TestC12_StrangeName(t *testing.T) {
 		default:
 			t.Fatalf("VERIF-INCONCLUSIVE C12: child for name %q ended unexpectedly: %v: %.300s", name, err, out)
 		}
-	})
+	}
 }
 
 // TestC12_Restart: a logger value used directly may be stopped and started again; in every life raw
